@@ -19,7 +19,11 @@ TEXT["C14"] = ("exploration", "every name length 0..1024 x four protocol familie
 TEXT["C03"] = ("exploration", "reference-model refinement inside the simulator: an independent implementation of the specifications is the peer of the real client and of the real server on the simulated wire (streams and Shadowsocks datagrams, both directions), strict as a receiver; seeded over credentials, addresses, payload scripts, ciphers, user tables and VMess option masks; plus the sender limits of the stream encoders.", "DESIGN.md 4/C03, appendix B")
 TEXT["C10"] = ("fault_enumeration", "the reference implementation as a hostile peer: all timestamp offsets across both edges of the 30 s (2022 streams and datagrams) and 120 s (VMess) windows, type bytes, replay histories with the simulated clock advanced 0..70 s between the copies, and mis-typed / stale / unbound responses to the real client; accept must equal the reference predicate, with a control handshake after every probe.", "DESIGN.md 4/C10")
 TEXT["C12"] = ("exploration", "everything the real encoders put on the simulated wire over many sessions and writes per run is parsed by the reference decoders, which recover (derived key, nonce) per sealed unit; oracle: all pairs distinct, per-session random values pairwise distinct, packet ids strictly increasing.", "DESIGN.md 4/C12")
+TEXT["C06"] = ("exploration", "seeded attacks against the real server of every protocol (random data, reference handshakes under wrong / one-bit-wrong / unregistered credentials, missing identity headers, other protocols, truncations, forged datagrams); oracle on the simulated registry: no connect / send toward a target for an unauthenticated peer; user separation with two registered users sharing a datagram session id.", "DESIGN.md 4/C06")
+TEXT["C07"] = ("exploration", "exhaustive short strings plus random, structure-aware, truncated and authenticated-but-malformed inputs (reference sender) against every network-facing decoder of the real client and server, with EOF and quiet after them; oracle = the process-wide panic monitor stays empty and the service carries on.", "DESIGN.md 4/C07")
 NOTE = {
+ "C06": "trusted base as C03; attacks are sampled",
+ "C07": "trusted base as C03; short strings exhaustive up to length 2, otherwise sampled; hostile-server replies to the client are sampled by C10 and the link checks",
  "C12": "trusted base as C03; detects missing / reused draws and counters, not weak randomness",
  "C10": "trusted base as C03 (reference implementation) plus the clock seam (hook H4) and the vendored lru_time_cache clock",
  "C03": "trusted base: the reference implementation (calibrated points listed in the evidence assumptions) and the third-party crypto crates both sides share",
